@@ -231,6 +231,8 @@ func init() {
 			{Entry: "HarnessC16Key", Args: []int64{3}, Bound: "a symbolic 3-byte key in every mapping", Require: []string{"diagnostic"}},
 			{Entry: "HarnessC16Snippet", Args: []int64{4}, Bound: "all printable-ASCII/LF sources of 4 bytes x 64-bit symbolic line and column", Require: []string{"line-found", "caret"}},
 			{Entry: "HarnessC16SnippetWide", Args: []int64{4}, Bound: "source lines of 4 units from {a, space, tab, U+200B, U+3042, U+00E9, U+0301} x 64-bit symbolic column; display widths of the library taken as given", Require: []string{"rendered", "caret"}},
+			{Entry: "HarnessC16TypeNames", Args: []int64{1}, Bound: "a user-chosen name of 1 arbitrary byte (matrix row / include key, dispatch / call input, secret, job output) printed inside an object type", Require: []string{"diagnostic", "type-printed"}},
+			{Entry: "HarnessC16TypeNames", Args: []int64{2}, Bound: "... 2 arbitrary bytes", Require: []string{"diagnostic", "type-printed"}},
 			{Entry: "HarnessC16Glob", Args: []int64{2, 0}, Bound: "filter-pattern validator messages for every 2-byte pattern", Require: []string{"diagnostic"}},
 			{Entry: "HarnessC16Glob", Args: []int64{3, 0}, Bound: "... every 3-byte pattern", Require: []string{"diagnostic"}},
 			{Entry: "HarnessC16Glob", Args: []int64{5, 1}, Bound: "... every 5-byte pattern over [ ] - \\ ! * ? a b LF CR space /", Require: []string{"diagnostic"}},
@@ -262,6 +264,7 @@ func init() {
 			{Entry: "HarnessC10Types", Args: []int64{3}, Bound: "... T 3 arbitrary bytes", Require: []string{"reported"}},
 		}
 		p.Quick = append(p.Quick, HRun{Entry: "HarnessC10MultiFile", Bound: "two repositories with their own configuration, three files (runner label two symbolic lower-case letters), LintFiles in 6 argument orders vs each file linted alone; configurations write-monitored", Require: []string{"linted"}})
+		p.Quick = append(p.Quick, HRun{Entry: "HarnessC10MatrixAlias", Bound: "matrices built from 7 expressions of shared types in 6 shapes (include elements before / after literal ones, whole matrix, whole include, row), every job order: no write to package-level tables, a later job unaffected", Require: []string{"linted"}})
 		p.Quick = append(p.Quick, HRun{Entry: "HarnessC10Races", Args: []int64{2, 3}, Bound: "LintFiles on 2 files x 3 run steps (shellcheck + pyflakes, one issue per script), 2 CPUs: every pair of accesses to one memory cell by two goroutines, one a write, without a common mutex, is ordered by the synchronisation in every schedule (solver query per pair on the schedule model)", Require: []string{"linted", "race-analysis-done"}})
 		for _, lens := range [][2]int64{{1, 1}, {1, 3}, {2, 2}, {2, 4}, {2, 5}, {3, 2}, {3, 3}, {3, 5}, {3, 6}, {4, 6}} {
 			p.Quick = append(p.Quick, HRun{Entry: "HarnessC10Knows", Args: []int64{lens[0], lens[1]}, Bound: "all roots / paths of these lengths over {/,a,b,.}"})
@@ -364,8 +367,10 @@ func init() {
 			{Entry: "HarnessC11Chains", Args: []int64{2}, Bound: "github + up to 2 segments (15 names as .name or ['name'], [0], .*) with symbolic letter case on every name, x 15 embeddings (5 sanitising)", Require: []string{"untrusted", "trusted-or-sanitised"}},
 			{Entry: "HarnessC11Two", Args: []int64{2}, Bound: "a generic chain of up to 2 segments (names event, commits, foo; [0]; .*) before or after a documented untrusted path in every spelling, in 4 two-operand shapes", Require: []string{"compared"}},
 			{Entry: "HarnessC11Routing", Bound: "the untrusted expression at every scalar position of the full skeleton and in actions/github-script inputs", Require: []string{"script-position", "other-position", "github-script"}},
+			{Entry: "HarnessC11Split", Bound: "every documented untrusted path in every spelling cut at every position, the rest applied to a call result / parenthesised literal in 5 shapes", Require: []string{"compared"}},
 		}
 		p.Thorough = []HRun{
+			{Entry: "HarnessC11Split", Bound: "every documented path cut at every position, 5 shapes", Require: []string{"compared"}},
 			{Entry: "HarnessC11Chains", Args: []int64{3}, Bound: "github + up to 3 segments x symbolic case x 15 embeddings", Require: []string{"untrusted", "trusted-or-sanitised"}},
 			{Entry: "HarnessC11Two", Args: []int64{3}, Bound: "generic chain of up to 3 segments with a documented path", Require: []string{"compared"}},
 			{Entry: "HarnessC11Routing", Bound: "every scalar position", Require: []string{"script-position", "other-position", "github-script"}},
